@@ -33,6 +33,7 @@ def count(ctx, trace):
     def bump(k):
         sit[k] = sit.get(k, 0) + 1
     after_failed_commit = {}
+    diverged = set()
     with open(trace) as f:
         f.readline()
         for l in f:
@@ -42,6 +43,7 @@ def count(ctx, trace):
             op = e['op']
             if op == 'reset':
                 after_failed_commit = {}
+                diverged = set()
                 bump('scenario ' + e['kind'] + '/' + e['pol'])
                 continue
             ctx.cov['per_op'][op] = ctx.cov['per_op'].get(op, 0) + 1
@@ -51,11 +53,15 @@ def count(ctx, trace):
                 continue
             msg = e.get('msg', '')
             if any(e.get('wf', ())) and op in ('Write', 'Close', 'Commit', 'Cancel'):
-                bump('upload: %s failed on one member alone%s' % (op, '' if e['ok'] else ' and the call failed'))
-            elif op == 'Commit' and e['ok'] and after_failed_commit.get((e['r'], e['u'])):
-                bump('upload: Commit repeated on the same unified writer after a one-sided failure succeeded')
+                bump('upload: %s failed on one member alone' % op)
+            elif op == 'Commit' and after_failed_commit.get((e['r'], e['u'])):
+                bump('upload: Commit repeated on the same unified writer after a one-sided failure')
+            if op == 'Write' and any(e.get('wf', ())):
+                diverged.add((e['r'], e['u']))
+            if op == 'Resume' and (e['r'], e['u']) in diverged:
+                bump('resume (offset %s) of an upload on which one member alone failed a write' % ('-1' if e['off'] < 0 else 'given'))
             if op == 'Commit':
-                after_failed_commit[(e['r'], e['u'])] = any(e.get('wf', ())) and not e['ok']
+                after_failed_commit[(e['r'], e['u'])] = any(e.get('wf', ()))
             if op == 'Referrers' and e['ok'] and len({d['mt'] for d in e.get('descs', [])}) > 1:
                 bump('referrers listed under different media types')
             if any(e.get('wf', ())):
@@ -124,6 +130,7 @@ def run(ctx):
     if not quick:
         for cfg, what in (
                 ('OciUnifyMC_view_mediatypes.cfg', 'pairs of member states in which a manifest (and the tag on it) is stored under two different media types'),
+                ('OciUnifyMC_view_wfaults.cfg', 'the 49 x 49 pairs with every replicated write also made while either member fails by itself'),
                 ('OciUnifyMC_view_faults.cfg', 'the 49 x 49 pairs with a faulty lister on either side (error after 1 item; NAME_UNKNOWN at once): merge rules for errors'),
                 ('OciUnifyMC_view_2repos.cfg', '81 x 81 pairs over two repositories (known to none/one/both), mounts through the unifier, merged repository listings'),
                 ('OciUnifyMC_repl_faults.cfg', 'histories of 5 writes through the unifier in which any replicated write or upload-writer call (Write, Close, Commit, Cancel) may fail on one member alone and be repeated'),
@@ -144,7 +151,7 @@ def run(ctx):
     for t in traces:
         count(ctx, t)
     sit = ctx.cov['situations']
-    for need in ('upload: Commit repeated on the same unified writer after a one-sided failure succeeded', 'upload: Write failed on one member alone and the call failed', 'referrers listed under different media types', 'listing ok with 5 or more merged entries (ListTags)', 'listing ok with 5 or more merged entries (ListRepos)', 'listing ok with 5 or more merged entries (Referrers)', 'PushBlob with a member failing by itself, answering after the healthy member', 'PushBlob with a member failing by itself, answering first', 'tag read: conflict reported', 'write refused because one member failed', 'listing: unknown to both', 'resume ok'):
+    for need in ('resume (offset -1) of an upload on which one member alone failed a write', 'resume (offset given) of an upload on which one member alone failed a write', 'upload: Commit repeated on the same unified writer after a one-sided failure', 'upload: Write failed on one member alone', 'referrers listed under different media types', 'listing ok with 5 or more merged entries (ListTags)', 'listing ok with 5 or more merged entries (ListRepos)', 'listing ok with 5 or more merged entries (Referrers)', 'PushBlob with a member failing by itself, answering after the healthy member', 'PushBlob with a member failing by itself, answering first', 'tag read: conflict reported', 'write refused because one member failed', 'listing: unknown to both', 'resume ok'):
         if not sit.get(need):
             raise vlib.Machinery('the batch never reached the situation %r' % need)
     ctx.cov['samples'] = [dict(recorded_events=samples(traces[0]))]
